@@ -806,6 +806,58 @@ def created_items(tier, seed):
     return out
 
 
+def frozen_items(tier, seed):
+    """Online networks frozen (learning rate 0), handed-in targets that differ from them, several gradient steps per
+    environment step: after an environment step with g soft updates the distance target - online has shrunk by (1 - tau)^g."""
+    out = []
+    for name in ("ddpg", "td3", "td3_lap"):
+        for g in ((1, 2, 3) if tier == "quick" else (1, 2, 3, 4)):
+            out.append(dict(name=f"frozen-{name}-g{g}", part="frozen", routine=name, gradient_steps=g, seed=seed,
+                            taus=[0.25] if tier == "quick" else [0.25, 0.5, 0.005]))
+    return out
+
+
+def frozen_work(item, col):
+    name, g = item["routine"], item["gradient_steps"]
+    entry = "train_" + name
+    for tau, ls in itertools.product(item["taus"], (0, 2)):
+        script = "cccTcc"
+        cfg = dict(buffer_size=16, env_horizon=len(script) + 3, learning_starts=ls, batch_size=2, seed=1 + item["seed"], net_seed=item["seed"], delay=1,
+                   tau=tau, lr=0.0, target_scale=0.5, gradient_steps=g, snap=True)
+        r = drivers.run(name, script, **cfg)
+        col.tick(1)
+        det0 = dict(routine=entry, script=script, tau=tau, learning_starts=ls, gradient_steps=g)
+        if r.error is not None or r.result is None:
+            col.violation(SIG.format(entry, K_RAISED), dict(det0, error=str(r.error)))
+            continue
+        snaps = [s for s in r.snaps]  # ("step", t, {module: snapshot}) taken at the top of env.step, plus ("end", ...)
+        for (k0, t0, a), (k1, t1, b) in zip(snaps, snaps[1:]):
+            step = t0  # the interval holds the processing of the environment step with 0-based index t0
+            for tname, oname in (("q_target", "q"), ("policy_target", "policy")):
+                o = np.concatenate([x.astype(np.float64).ravel() for x in arrays(a[oname])])
+                o2 = np.concatenate([x.astype(np.float64).ravel() for x in arrays(b[oname])])
+                t_old = np.concatenate([x.astype(np.float64).ravel() for x in arrays(a[tname])])
+                t_new = np.concatenate([x.astype(np.float64).ravel() for x in arrays(b[tname])])
+                if not np.array_equal(o, o2):
+                    raise RuntimeError("frozen item: the online network moved although its learning rate is 0")
+                n_upd = g if step >= ls else 0
+                want = o + (1.0 - tau) ** n_upd * (t_old - o)
+                col.tick(1, ("frozen", name, g, tau, ls, step, tname) if n_upd > 1 else None)
+                col.outcome("frozen_intervals_compared")
+                if n_upd > 1:
+                    col.outcome("frozen_intervals_with_several_soft_updates")
+                tol = 1e-5 * np.maximum(1.0, np.abs(want))
+                if not np.all(np.abs(t_new - want) <= tol):
+                    # how many updates would explain it?
+                    num_, den_ = (t_new - o), (t_old - o)
+                    m = np.abs(den_) > 1e-3
+                    ratio = float(np.median(num_[m] / den_[m])) if m.any() else float("nan")
+                    kind = K_MISSED if n_upd and abs(ratio - 1.0) < 1e-6 else (K_OFF if not n_upd else K_RULE)
+                    col.violation(SIG.format(entry, kind), dict(det0, target=tname, env_step=step, soft_updates_expected=n_upd, expected_shrink=(1.0 - tau) ** n_upd, observed_shrink=ratio))
+                    break
+    col.sample(dict(kind="frozen online networks", routine=entry, gradient_steps=g, taus=item["taus"]))
+
+
 def items(tier, seed):
     law = [dict(name=f"law-{k}", part="law", kind=k, seed=seed) for k in LAW_KINDS]
     cad = cadence_items(tier, seed)
@@ -813,7 +865,7 @@ def items(tier, seed):
     slow = [i for i in cad if i["routine"] in ("mrq", "td7")]
     slow.sort(key=lambda i: i["routine"] != "mrq")
     rest = [i for i in cad if i["routine"] not in ("mrq", "td7")]
-    return slow + law + created_items(tier, seed) + rest
+    return slow + law + created_items(tier, seed) + frozen_items(tier, seed) + rest
 
 
 def work(item, col):
@@ -821,5 +873,7 @@ def work(item, col):
         law_work(item, col)
     elif item["part"] == "cadence":
         cadence_work(item, col)
+    elif item["part"] == "frozen":
+        frozen_work(item, col)
     else:
         created_work(item, col)
